@@ -133,7 +133,8 @@ const POLL_KEY: &str = "server_dictated_poll_interval";
 
 fn run_uc(ctx: &RunCtx, tier: Tier) -> RunOut {
     let cup = choose("cup", 2) == 1;
-    let stored_poll = choose("stored_poll", 2) == 1;
+    // none / an interval no answer repeats / exactly the interval the "HTTP 500 + X-Retry-After: 88" answer repeats
+    let stored_poll: Option<u64> = [None, Some(3600), Some(88)][choose("stored_poll", 3)];
     let bad_url = choose("bad_url", 2) == 1;
     let mut s = Setup::new(Mode::Oneshot);
     s.cup = cup;
@@ -146,8 +147,8 @@ fn run_uc(ctx: &RunCtx, tier: Tier) -> RunOut {
         s.service_url = "http://exa mple/".into();
     }
     let mut store = Store::default();
-    if stored_poll {
-        store.committed.insert(POLL_KEY.into(), StVal::I(3_600_000_000));
+    if let Some(secs) = stored_poll {
+        store.committed.insert(POLL_KEY.into(), StVal::I(secs as i64 * 1_000_000));
     }
     let report_menu = if cup {
         vec![R::Ok, R::Transport, R::S500, R::Forged]
@@ -209,7 +210,7 @@ fn is_forged(cup: bool, s: &RespSpec) -> bool {
     cup && !matches!(s.etag, EtagSpec::Auto)
 }
 
-fn oracle(log: &[Obs], cup: bool, stored_poll: bool, bad_url: bool) -> V {
+fn oracle(log: &[Obs], cup: bool, stored_poll: Option<u64>, bad_url: bool) -> V {
     let reqs: Vec<&WireReq> = log
         .iter()
         .filter_map(|o| if let Obs::Req(r) = o { Some(&**r) } else { None })
@@ -236,7 +237,7 @@ fn oracle(log: &[Obs], cup: bool, stored_poll: bool, bad_url: bool) -> V {
         return bad("more than three update-check requests", format!("{}", ucs.len()));
     }
     // reference: poll interval in force, retry decisions
-    let mut poll: Option<Duration> = if stored_poll { Some(Duration::from_secs(3600)) } else { None };
+    let mut poll: Option<Duration> = stored_poll.map(Duration::from_secs);
     let mut exp_metrics_rt: Vec<bool> = vec![];
     let mut final_ok = false;
     for (k, r) in ucs.iter().enumerate() {
@@ -488,7 +489,7 @@ fn parts(tier: Tier) -> Vec<PartDef> {
             "uc-words",
             Cfg::new("C06/uc-words"),
             json!({"attempt_alphabet": ALPHA.iter().map(|a| format!("{a:?}")).collect::<Vec<_>>(), "max_attempts_explored": "all words the flow consumes (<= 3, a 4th would be a violation)",
-                   "stored_poll_interval": ["none", "3600 s"], "cup": ["off", "on (real verifier)"],
+                   "stored_poll_interval": ["none", "3600 s", "88 s (the value one of the answers repeats)"], "cup": ["off", "on (real verifier)"],
                    "jitter_draws_per_wait": tier.pick(json!([500, 0, "2^64-1"]), json!([500, 0, 1, 499, 999, 1000, "2^63", "2^64-1"])),
                    "report_delivery": ["ok", "transport", "HTTP 500", "unsigned (cup)"], "bad_service_url": [false, true], "exploration": "full product"}),
             move |ctx| run_uc(ctx, tier),
